@@ -258,6 +258,7 @@ class FnSpec:
         self.loops = {}
         self.ats = []
         self.closures = {}
+        self.desugars = []
         self.attr = None
         self.line = 0
 
@@ -347,6 +348,12 @@ def parse_vspec(path):
                         raise Undecided('%s:%d: bad @at' % (path, i + 1))
                     text, i = block(i + 1)
                     fs.ats.append((m.group(1), m.group(2).replace('\\"', '"'), text))
+                elif h2 == '@desugar':
+                    m = re.match(r'"((?:[^"\\]|\\.)*)"\s+(\S+)\s+"((?:[^"\\]|\\.)*)"', r2)
+                    if not m:
+                        raise Undecided('%s:%d: bad @desugar' % (path, i + 1))
+                    fs.desugars.append((m.group(1), m.group(2), m.group(3)))
+                    i += 1
                 elif h2 == '@closure':
                     k, _, sig = r2.partition(' ')
                     text, i = block(i + 1)
@@ -541,6 +548,50 @@ class Extractor:
             body = body[:s] + ' ' * (e - s) + body[e:]
         return body
 
+    OPS = {'%': ('Rem', 'rem', 10), '/': ('Div', 'div', 10), '*': ('Mul', 'mul', 10), '+': ('Add', 'add', 9),
+           '-': ('Sub', 'sub', 9), '<<': ('Shl', 'shl', 8), '>>': ('Shr', 'shr', 8), '&': ('BitAnd', 'bitand', 7),
+           '^': ('BitXor', 'bitxor', 6), '|': ('BitOr', 'bitor', 5)}
+    BINLVL = {'*': 10, '/': 10, '%': 10, '+': 9, '-': 9, '<<': 8, '>>': 8, '&': 7, '^': 6, '|': 5,
+              '==': 4, '!=': 4, '<': 4, '>': 4, '<=': 4, '>=': 4, '&&': 3, '||': 2, '..': 1, '..=': 1,
+              '=': 0, '+=': 0, '-=': 0, '*=': 0, '/=': 0, '%=': 0, '^=': 0, '&=': 0, '|=': 0, '<<=': 0, '>>=': 0}
+
+    def _desugar(self, body, fs, where, drops):
+        """A7: `L OP R` -> `core::ops::Tr::m(L, R)` (what rustc itself does for non-primitive operands).
+        Only applied where the operands are complete w.r.t. operator precedence; otherwise Undecided."""
+        for L, op, R in fs.desugars:
+            toks = lex(body)
+            seq = [t.text for t in lex(L)] + [op] + [t.text for t in lex(R)]
+            nl = len(lex(L))
+            hit = None
+            for k in range(len(toks) - len(seq) + 1):
+                if [t.text for t in toks[k:k + len(seq)]] == seq:
+                    hit = k
+                    break
+            if hit is None:
+                raise Undecided('lost anchor: `%s %s %s` in %s' % (L, op, R, where))
+            tr, meth, lvl = self.OPS[op]
+            prev = toks[hit - 1] if hit > 0 else None
+            nxt = toks[hit + len(seq)] if hit + len(seq) < len(toks) else None
+            enders = lambda t: t is not None and (t.kind in ('ident', 'num', 'str', 'char') and t.text not in ('return', 'in', 'if', 'else', 'match') or t.text in (')', ']'))
+            if prev is not None:
+                pt = prev.text
+                if pt in ('.', '::', '!', 'as') or (pt in ('-', '*', '&') and not enders(toks[hit - 2] if hit > 1 else None)):
+                    raise Undecided('desugar of `%s %s %s` in %s: left operand is not complete' % (L, op, R, where))
+                if pt in self.BINLVL and self.BINLVL[pt] >= lvl and pt not in ('=',) and self.BINLVL[pt] > 0:
+                    raise Undecided('desugar of `%s %s %s` in %s: precedence on the left' % (L, op, R, where))
+            if nxt is not None:
+                nt = nxt.text
+                if nt in ('.', '::', '(', '[', '?', 'as') or (nt in self.BINLVL and self.BINLVL[nt] > lvl):
+                    raise Undecided('desugar of `%s %s %s` in %s: right operand is not complete' % (L, op, R, where))
+            s0, s1 = toks[hit].start, toks[hit + len(seq) - 1].end
+            ltxt = body[toks[hit].start:toks[hit + nl - 1].end]
+            rtxt = body[toks[hit + nl + 1].start:s1]
+            if '\n' in body[s0:s1]:
+                raise Undecided('desugar across lines in %s' % where)
+            body = body[:s0] + 'core::ops::%s::%s(%s, %s)' % (tr, meth, ltxt, rtxt) + body[s1:]
+            drops.append('A7 operator desugaring in %s: `%s %s %s` -> core::ops::%s::%s(..)' % (where, L, op, R, tr, meth))
+        return body
+
     def _splice_body(self, body, fs, where):
         """Insert loop invariants / @at proof text / closure contracts. Returns list of (text, is_spec)."""
         toks = lex(body)
@@ -631,6 +682,7 @@ class Extractor:
             res.drops.append('D1 attr on %s: %s' % (qual, a))
         where = '%s (%s)' % (qual, sf.rel)
         body = self._clean_body(body, res.drops, where)
+        body = self._desugar(body, fs, where, res.drops)
         if fs.ret:
             sig = self._name_ret(sig, fs.ret)
         start = out.lineno
